@@ -18,7 +18,7 @@ def run(chk, tier):
                 'diagnostics arm has no effect but reporting; matching!() accepts everything. Runtime (FACTS): CallPattern::match_inputs '
                 'hands the stored function the inputs and an enabled/disabled reporter and returns its verdict unchanged.')
     X.check_patterns(chk, tier, chk.seed, {'C06'})
-    for cfg in configs(tier, thorough=('std',)):
+    for cfg in configs(tier, thorough=('std', 'mocks', 'nostd-spin', 'nostd')):
         F = load(chk, cfg)
         match_inputs(chk, F, 'R06.5', cfg)
         from props import ctor
